@@ -15,7 +15,8 @@ LEVEL = "proof"
 # function-level tie (translator + agreement theorems, on ASCII text): see runner step 3a
 TIE_THEOREMS = {"Univers.Text.GenSplitReqThm": ["Univers.Gen.Text.py_split_req_eq", "Univers.Gen.Text.py_split_req_bracket_eq"],
                 "Univers.Text.GenAdvisoryThm": ["Univers.Gen.Text.py_github_constraint_eq", "Univers.Gen.Text.py_github_range_eq",
-                                                "Univers.Gen.Text.py_snyk_range_eq"]}
+                                                "Univers.Gen.Text.py_snyk_range_eq"],
+                "Univers.Text.GenAdvisoryExact": ["Univers.Gen.Text.py_github_exact", "Univers.Gen.Text.py_snyk_exact"]}
 RULE = ("(1) the advisory converters of the real code against the Lean model on generated and mutated expressions of each "
         "notation; (2) the property's oracle on the real code: a seeded logical range (list of comparator/version pairs over "
         "versions of the scheme's grammar) is rendered in the GitHub notation, the three Snyk notations (comma, space, bracket "
